@@ -310,6 +310,7 @@ func replayAndJudge(res *resT, c *caseT, hist []actT, last *nextT, st *stateT) {
 
 type pair struct {
 	orig, inl *schema.ScopeSchema
+	late      bool // evaluating the inputs that were put off because they may recurse forever
 }
 
 // buildPair constructs the tree and its inlined variant, both fully linked with nstab.
@@ -390,10 +391,14 @@ func guarded(f func() (any, error)) outcome {
 // compare runs Unserialize / Validate / Serialize on the scope and on the inlined scope.
 // mk builds a fresh copy of the input for every call. Returns the scope's verdict.
 func (p *pair) compare(res *resT, mkIn func() any, exp *expT, label map[string]any) (accepted, judged bool) {
-	if s, ok := label["raw"].(string); ok {
-		fmt.Fprintf(os.Stderr, "C14-AT %s\n", s)
-	}
+	// marker for the orchestrator: which input was in flight if the process dies (fatal stack overflow).
+	// Full text only for the inputs predicted to be dangerous; the stack dump must stay within sup's clip.
 	res.Inputs++
+	if s, ok := label["raw"].(string); ok && (p.late || strings.HasPrefix(s, "deep:")) {
+		fmt.Fprintf(os.Stderr, "C14-AT %s\n", s)
+	} else {
+		fmt.Fprintf(os.Stderr, "C14-AT #%d\n", res.Inputs)
+	}
 	a := guarded(func() (any, error) { return p.orig.Unserialize(mkIn()) })
 	b := guarded(func() (any, error) { return p.inl.Unserialize(mkIn()) })
 	res.Evals += 2
@@ -587,6 +592,7 @@ func runTree(c *caseT) *resT {
 	}
 	late = append(late, generated(res, p, g, c.Tree, inl, c.Gen, skip)...)
 	if !c.SkipLoops {
+		p.late = true
 		for _, f := range late {
 			f()
 		}
